@@ -38,6 +38,10 @@ TEXT = {
             "TLC model checking + history monitor + authority/replica lock-step on the real code"),
     "C12": ("Save/Load are specification actions (encode/decode of the activity state, exactly the needed lifecycle callbacks, no guards) model-checked for manual activation; every (saver state, loader state) pair is executed on the real code, the buffer bytes (with canaries around the buffer) are compared with the canonical encoding.",
             "TLC model checking + all saver/loader pairs replayed on the real code"),
+    "C14": ("Dispatch is behaviour of the machine specification (a request for id k activates state k and only its callbacks run); for every state count of the sweep a real machine with that many states is built and every index k is visited (immediate change, update, react, query, guard redirects across the halves of the state list, a plan task), the trace is validated step by step against FFSM2.tla with N read from the trace, and the monitor checks stateId<T>() for every T, control.stateId(), and that access<T>() is the object whose callbacks run. Quick: 25 state counts around powers of two up to 255; thorough: every N in 1..255.",
+            "trace validation of an N-sweep (up to all N in 1..255) against the TLA+ specification + id monitor"),
+    "C19": ("A feature-neutral program (transitions, guards, phases only) is built under switch combinations (quick: pairwise-covering 32 rows + ENABLE_ALL, two compilers, four standards sampled; thorough: all 256 combinations x {g++, clang++} x {11,14,17,20}), alternating activation mode, payload and header variant; a combination that does not compile is a violation; each recorded trace is validated against FFSM2.tla with the feature constants read from the trace, so any behavioural difference caused by an unused feature is a mismatch. The amalgamation clause is decided by regenerating the header with tools/join.py on a scratch copy and comparing bytes (auxiliary, not a TLA+ result).",
+            "build matrix + trace validation against the TLA+ specification; byte comparison of the regenerated single header"),
     "C15": ("Delivery frames expand into injection sub-deliveries in the specification; the order monitor checks each delivery on recorded traces of profiles with 0-3 injections on root and states.",
             "TLC model checking + sub-delivery order monitor"),
     "C16": ("Log records are part of the specified events (method record first, only if attached and verbose or defined; transition/cancel/status records at the actions); TLC checks sparse and verbose configurations, the logging monitor checks recorded traces relative to the deliveries actually observed, and lanes that differ only in logger attachment must produce identical non-log traces.",
